@@ -116,6 +116,8 @@ pub(crate) fn remove_or_compress_too_old_logfiles_impl(
     {
         if index >= log_limit + compress_limit {
             // delete (log or log.gz)
+            #[cfg(flexi_logger_verif)]
+            crate::verif_hooks::point("fs:remove", Some(&file))?;
             std::fs::remove_file(file)?;
         } else if index >= log_limit {
             #[cfg(feature = "compress")]
@@ -135,13 +137,21 @@ pub(crate) fn remove_or_compress_too_old_logfiles_impl(
                             }
                         }
 
+                        #[cfg(flexi_logger_verif)]
+                        crate::verif_hooks::point("fs:gz_create", Some(&compressed_file))?;
                         let mut gz_encoder = flate2::write::GzEncoder::new(
                             File::create(compressed_file)?,
                             flate2::Compression::fast(),
                         );
                         let mut old_file = File::open(file.clone())?;
+                        #[cfg(flexi_logger_verif)]
+                        crate::verif_hooks::point("fs:gz_copy", Some(&file))?;
                         std::io::copy(&mut old_file, &mut gz_encoder)?;
+                        #[cfg(flexi_logger_verif)]
+                        crate::verif_hooks::point("fs:gz_finish", Some(&file))?;
                         gz_encoder.finish()?;
+                        #[cfg(flexi_logger_verif)]
+                        crate::verif_hooks::point("fs:remove_orig", Some(&file))?;
                         std::fs::remove_file(&file)?;
                     }
                 }
@@ -186,6 +196,8 @@ pub(super) fn start_cleanup_thread(
         sender,
         join_handle: builder.spawn(move || {
             while let Ok(MessageToCleanupThread::Act) = receiver.recv() {
+                #[cfg(flexi_logger_verif)]
+                crate::verif_hooks::point("sc:cleanup_act", None).ok();
                 remove_or_compress_too_old_logfiles_impl(
                     &cleanup,
                     &file_spec,
